@@ -46,7 +46,7 @@ func init() {
 	}
 	checks["C02"] = &checkDef{
 		run:         func(c *Ctx) { premises(c); runR_C02(c) },
-		explanation: "Engine R on the equal plugin: every accepted abstract path's residual is checked for (R6) two-sidedness — every comparison and helper/method call pairs mirror-image components of the two values, nil tests come in mirrored pairs; (R19) every field of every inlined struct takes part on both sides; (R7) every dereference, pointer field read, cross-indexing and looked-up map value is guarded (non-nil / equal length / ok) in the guard set; (R10) no write through an argument; curried and binary forms emit the same body; the user's Equal method is consulted before `==` is chosen (decision order); library comparisons that ignore nil-ness are flagged. G9 tabulates canEqual over go/types kinds. Not decided: extensional equality, reflexivity/symmetry/transitivity as semantic facts, NaN/cycles (excluded), shapes beyond the bounds. Since wave 6: library calls that are blind to nil-ness (bytes.Equal) are leaves only together with a nil-ness agreement test (R-leaf); canEqual refuses a type (or a component, also behind an alias) that has its own Equal method (G9). Premises shared by every property about emitted code (Engine G, wave 8): a successful run has passed Print or Delete for every initial package (G10, G31: no package is skipped), and the plugins are ordered by the prefixes of this run (G8: every prefix is set before the plugins are constructed and sorted).",
+		explanation: "Engine R on the equal plugin: every accepted abstract path's residual is checked for (R6) two-sidedness — every comparison and helper/method call pairs mirror-image components of the two values, nil tests come in mirrored pairs; (R19) every field of every inlined struct takes part on both sides; (R7) every dereference, pointer field read, cross-indexing and looked-up map value is guarded (non-nil / equal length / ok) in the guard set; (R10) no write through an argument; curried and binary forms emit the same body; the user's Equal method is consulted before `==` is chosen (decision order); library comparisons that ignore nil-ness are flagged. G9 tabulates canEqual over go/types kinds. Not decided: extensional equality, reflexivity/symmetry/transitivity as semantic facts, NaN/cycles (excluded), shapes beyond the bounds. Since wave 6: library calls that are blind to nil-ness (bytes.Equal) are leaves only together with a nil-ness agreement test (R-leaf); canEqual refuses a type (or a component, also behind an alias) that has its own Equal method (G9). Since wave 9: the method-lookup predicate is also complete — a method with the right name, arities and result kind is not turned down by any further test (G9 on rejecting paths). Premises shared by every property about emitted code (Engine G, wave 8): a successful run has passed Print or Delete for every initial package (G10, G31: no package is skipped), and the plugins are ordered by the prefixes of this run (G8: every prefix is set before the plugins are constructed and sorted).",
 		assumptions: commonAssumptions,
 		technique:   "abstract interpretation of the equal generator into residual programs + AST/guard-set (dominance) analyses of the residuals; predicate tabulation",
 	}
@@ -237,7 +237,7 @@ func init() {
 			runG5(c.Repo, c.Rep)
 			c.Rep.floor("G7", 40)
 		},
-		explanation: "G7: SetFuncName's structured control flow is enumerated path by path over the atoms {name-of-types hit, hit==requested, requested bound, bound types eq, dedup, autoname}; each of the 36 consistent states must yield exactly the outcome the property prescribes (requested / existing only with -dedup / fresh only with -autoname / error / register in both tables). newName returns a candidate that was tested after its last update against both funcToTyps and reserved, built from the current prefix; GetFuncName registers exactly the name it returns; the reserved set is complete before any table uses it; nameOf answers only under eq (G11). Not decided: eq uses assignability rather than identity (outside the property's pairwise-non-assignable quantifier); type-correctness after renaming (C01). Added: (G16) eq evaluated abstractly on lists of lengths (1,2),(2,1),(0,1),(1,0),(2,3),(1,1),(2,2): false for different lengths, true when every pairwise test succeeds; (G14) the name returned by Add reaches the call identifier at every call site; (G4/G5) the rewrite truncates and prints the file's own tree; reserved names come from user files only. Added: every recorded call becomes its own record (G8), reserved set complete before naming (G14), argument types never from the callee's declaration (G17 clause 2). Since wave 6: eq compares types.Default'ed types (G29); every name declared at package level outside the derived file is reserved, called or not (G32); newName returns the very name it tested and cuts type names between runes (G7/G15). Engine G analyses the helper-inlined view of the driver (normalise.go; notes in this evidence say what was inlined). Wave 8: G15 variable offsets in newName. After fix (see known_findings): with -autoname a call whose requested name is bound to other types and whose own types are bound under another name is renamed to that name (state H,¬S,F,¬E,autoname of the table).",
+		explanation: "G7: SetFuncName's structured control flow is enumerated path by path over the atoms {name-of-types hit, hit==requested, requested bound, bound types eq, dedup, autoname}; each of the 36 consistent states must yield exactly the outcome the property prescribes (requested / existing only with -dedup / fresh only with -autoname / error / register in both tables). newName returns a candidate that was tested after its last update against both funcToTyps and reserved, built from the current prefix; GetFuncName registers exactly the name it returns; the reserved set is complete before any table uses it; nameOf answers only under eq (G11). Not decided: eq uses assignability rather than identity (outside the property's pairwise-non-assignable quantifier); type-correctness after renaming (C01). Added: (G16) eq evaluated abstractly on lists of lengths (1,2),(2,1),(0,1),(1,0),(2,3),(1,1),(2,2): false for different lengths, true when every pairwise test succeeds; (G14) the name returned by Add reaches the call identifier at every call site; (G4/G5) the rewrite truncates and prints the file's own tree; reserved names come from user files only. Added: every recorded call becomes its own record (G8), reserved set complete before naming (G14), argument types never from the callee's declaration (G17 clause 2). Since wave 6: eq compares types.Default'ed types (G29); every name declared at package level outside the derived file is reserved, called or not (G32); newName returns the very name it tested and cuts type names between runes (G7/G15). Engine G analyses the helper-inlined view of the driver (normalise.go; notes in this evidence say what was inlined). Wave 8: G15 variable offsets in newName. After fix (see known_findings): with -autoname a call whose requested name is bound to other types and whose own types are bound under another name is renamed to that name (state H,¬S,F,¬E,autoname of the table). Since wave 9: (G8) every -<plugin>.prefix flag is applied before the plugins are constructed and sorted by prefix length, so that longest-prefix dispatch uses the prefixes of this run.",
 		assumptions: commonAssumptions,
 		technique:   "custom static analysis: decision-table extraction by path enumeration over the typed AST, loop-exit and dominance rules",
 	}
